@@ -157,7 +157,7 @@ let exec toks =
   | "sort" ->
       let ws = List.tl (nums ()) in
       Printf.sprintf "%s | %s" (s_words (sort_desc ws)) (s_words (sort_desc ws))
-  | "shiftn" -> s_words (shift_suit_hand (List.tl (nums ())))
+  | "shiftn" -> s_res s_words (shift_suit_sized (List.tl (nums ())))
   | "two" ->
       let ws = nums () in
       String.concat " "
